@@ -130,6 +130,7 @@ def run_property(prop, tier, seed):
     discharged = 0
     samples = []
     failed_by_fn: dict = {}
+    guards_inconclusive: list = []
     solver_time = 0.0
     for ob in obs:
         r = res[ob.oid]
@@ -144,7 +145,9 @@ def run_property(prop, tier, seed):
             elif r["verdict"] == "unsat":
                 errors.append(f"vacuity: {ob.oid} is unsat (contradictory precondition / unreachable)")
             else:
-                undecided.append((ob, r))
+                # the guard only has to rule out a contradictory precondition; 'unknown' (quantified
+                # preconditions) is recorded, not counted as an obligation
+                guards_inconclusive.append(ob.oid)
             continue
         if r["verdict"] == "unsat":
             discharged += 1
@@ -166,6 +169,8 @@ def run_property(prop, tier, seed):
 
     for fid, items in failed_by_fn.items():
         nc = nc_for(fid)
+        if nc is not None and nc.c.no_native:
+            nc = None
         witness = None
         for ob, r in items:
             if r["verdict"] == "sat" and r.get("model") and nc is not None:
@@ -208,6 +213,9 @@ def run_property(prop, tier, seed):
     # ---- bounded stand-in 1: native contract search on every kernel (incl. out-of-subset ones)
     bounded = {"functions": {}, "evaluations": 0}
     for c in kernels:
+        if c.no_native or c.trusted and not c.module.startswith("pyxform"):
+            bounded["functions"][c.fid] = {"skipped": c.no_native or "external"}
+            continue
         nc = nc_for(c.fid)
         try:
             fn_ok = nc.real_function()
@@ -274,7 +282,7 @@ def run_property(prop, tier, seed):
     for e in errors:
         print(f"CHECKER-ERROR property={prop} {e}")
 
-    n_ob = len(obs)
+    n_ob = len(obs) - len(guards_inconclusive)
     level = "proof" if n_ob and discharged == n_ob and not undecided else "other"
     cov = {
         "obligations": n_ob,
@@ -287,6 +295,7 @@ def run_property(prop, tier, seed):
         "solver_time_s": round(solver_time, 2),
         "solve_wall_s": out["solve_s"],
         "undecided": [o.oid for o, _ in undecided if o is not None],
+        "vacuity_guards_inconclusive": guards_inconclusive,
         "known_findings_matched": sorted(seen),
         "bounded_native_contract_search": bounded,
         "bounded_e2e": {k: v for k, v in (e2e or {}).items() if k != "violations"},
